@@ -42,16 +42,9 @@ Definition agrees (l : list res) (obs : list (list str * sdesc * option ent)) : 
 (* regions of the known findings, decidable on the input:
    1  a scope contains a procedure whose name a host scope also gives to a procedure
       (all_procs is updated WITH the parent's: the contained procedure does not shadow)
-   2  an identifier of a shared dictionary (types, abstract interfaces) is declared more than once
-      in the unit, or is referenced from a scope where it is not visible although another scope of
-      the unit declares it (declarations leak to siblings and hosts through the shared dictionaries) *)
-Definition all_decls (c : cls) (all : list srec) : list (str * ent) :=
-  flat_map (fun Sc => own Sc (own_names Sc c) ++ imports_of Sc c) all.
-Fixpoint functional_b (l : list (str * ent)) : bool :=
-  match l with
-  | [] => true
-  | (n, e) :: l' => forallb (fun kv => negb (str_eqb (fst kv) n) || ent_eqb (snd kv) e) l' && functional_b l'
-  end.
+   2  an identifier is declared more than once in the unit, or is referenced from a scope where it
+      is not visible although another scope of the unit declares it (declarations leak to siblings
+      and hosts through the shared dictionaries); 1 is a special case of 2 *)
 Definition region_shadow (evs : list event) : bool :=
   let all := scopes_of evs in
   existsb (fun Sc => match s_kind Sc with
@@ -61,24 +54,15 @@ Definition region_shadow (evs : list event) : bool :=
                                               | None => false
                                               end) (s_procs Sc)
                      end) all.
-Definition declared_in (all : list srec) (c : cls) (n : str) : bool := str_in n (map fst (all_decls c all)).
 Definition region_leak (evs : list event) : bool :=
-  let all := scopes_of evs in
-  negb (functional_b (all_decls CType all)) || negb (functional_b (all_decls CAbs all ++ all_decls CProc all))
-  || existsb (fun r => match r_ent r with
-                       | Some _ => false
-                       | None => match r_look r with
-                                 | LType => declared_in all CType (r_name r)
-                                 | LProc => declared_in all CProc (r_name r)
-                                 | LProcAbs => declared_in all CProc (r_name r) || declared_in all CAbs (r_name r)
-                                 end
-                       end) (spec evs).
+  negb (names_unique_per_root evs) || negb (refs_visible_or_undeclared evs).
 
 Definition case := (list event * list (list str * sdesc * option ent))%type.
 Definition judge (c : case) : nat :=
   let evs := fst c in
   verdict (negb (agrees (correlate evs) (snd c))) (negb (agrees (spec evs) (snd c)))
-          ((if region_shadow evs then 1 else 0) + (if region_leak evs then 2 else 0)).
+          ((if region_shadow evs then 1 else 0) + (if region_leak evs then 2 else 0)
+           + (if wf_events evs then 0 else 4)).
 
 (* ancestor_module / parent_submodule: (names of the candidate units in project order, the name
    written in the SUBMODULE statement, the unit the implementation attached) *)
